@@ -405,7 +405,13 @@ impl DefaultModeArgs {
                     .input_git_dir
                     .clone()
                     .expect("IE: This should not be possible (Clap)"),
-                ext: String::from("txn"),
+                // no option shadows the suffix: the configured Git suffix applies, if there is one
+                ext: match settings
+                    .get_input_settings(Some(&config::StorageType::STORAGE_GIT.to_string()), None)
+                {
+                    Ok(InputSettings::Git(git)) => git.ext,
+                    _ => String::from("txn"),
+                },
             };
             Ok(InputSettings::Git(i))
         } else if self.input_git_repo.is_none() && git_selector.is_some() {
